@@ -44,6 +44,8 @@ fire("expand-check-zero-needs-unnamed", ["C12"], "EXPAND/check", E("src/expand.r
 silent("expand-check-reordered-tests", ["C12", "C05"], E("src/expand.rs", "            if num == 0 {\n                Ok(())\n            } else if !regex.named_groups.is_empty() {\n                Err(Error::CompileError(CompileError::NamedBackrefOnly))\n            } else if num < regex.captures_len() {", "            if num != 0 && !regex.named_groups.is_empty() {\n                Err(Error::CompileError(CompileError::NamedBackrefOnly))\n            } else if num == 0 || num < regex.captures_len() {"))
 fire("push-usize-digit-order", ["C16"], "push_usize", E("src/lib.rs", "        push_usize(s, x / 10);\n        s.push((b'0' + (x % 10) as u8) as char);", "        s.push((b'0' + (x % 10) as u8) as char);\n        push_usize(s, x / 10);"))
 fire("push-usize-threshold", ["C16"], "push_usize", E("src/lib.rs", "    if x >= 10 {\n        push_usize(s, x / 10);", "    if x > 10 {\n        push_usize(s, x / 10);"))
+fire("compile-delegate-lit-inverted", ["C03", "C01"], "compile_delegate", E("src/compile.rs", "        let insn = if info.is_literal() {", "        let insn = if !info.is_literal() {"))
+fire("compile-delegate-empty-lit", ["C03", "C01"], "compile_delegate", E("src/compile.rs", "            let mut val = String::new();\n            info.push_literal(&mut val);\n            Insn::Lit(val)", "            let val = String::new();\n            Insn::Lit(val)"))
 # ---------------- VM state
 fire("push-nsave-reset", ["C20", "C02"], "State::push", E("src/vm.rs", "            self.nsave = 0;\n            self.trace_stack(\"push\");", "            self.trace_stack(\"push\");"))
 fire("save-logs-new-value", ["C20", "C02"], "State::save", E("src/vm.rs", "        self.oldsave.push(Save {\n            slot,\n            value: self.saves[slot],\n        });", "        self.oldsave.push(Save {\n            slot,\n            value: val,\n        });"))
